@@ -147,29 +147,27 @@ def run(ctx):
 
     # C14.b per-frame containment structure
     g = ctx.fn(GETR)
-    par = parents_of(g.node)
-    calls = [n for n in ast.walk(g.node) if isinstance(n, ast.Call) and
-             getattr(prog.resolve_expr(g.module, n.func, g.cls), "qual", None) == CONSTRUCT]
-    for c in calls:
+    from ..helpers import ancestor_chains
+    sites = ancestor_chains(prog, g, lambda f, n: getattr(prog.resolve_expr(f.module, n.func, f.cls), "qual", None) == CONSTRUCT)
+    for f, c, chains in sites:
         ctx.count("construct_sites")
-        chain = []
-        n = c
-        while n in par:
-            n = par[n]
-            chain.append(n)
-        tries = [x for x in chain if isinstance(x, ast.Try)]
-        loops = [x for x in chain if isinstance(x, (ast.For, ast.AsyncFor, ast.While))]
-        inside = bool(tries) and bool(loops) and chain.index(tries[0]) < chain.index(loops[0])
-        ctx.ob("C14.b", GETR, inside, "Response.construct is wrapped by a try that lies inside the per-frame loop",
-               func=GETR, file=g.module.rel, node=c,
-               fail="the handler around Response.construct is not inside the per-frame loop: one bad frame aborts the rest")
-        if inside:
-            t = tries[0]
-            for h in t.handlers:
-                leaves = [x for st in h.body for x in ast.walk(st) if isinstance(x, (ast.Break, ast.Return, ast.Raise))]
-                ctx.ob("C14.b", GETR, not leaves, f"handler `except {norm(h.type) if h.type else ''}` continues with the next frame",
-                       func=GETR, file=g.module.rel, node=h,
-                       fail="the handler leaves the per-frame loop (break / return / raise): later frames of the exchange are lost")
+        for chain in chains or [[]]:
+            # the innermost try whose *body* holds the call, and the innermost loop
+            ti = next((i for i, (x, fld) in enumerate(chain) if isinstance(x, ast.Try) and fld == "body"), None)
+            li = next((i for i, (x, _f) in enumerate(chain) if isinstance(x, (ast.For, ast.AsyncFor, ast.While))), None)
+            inside = ti is not None and li is not None and ti < li
+            ctx.ob("C14.b", GETR, inside, "Response.construct is wrapped by a try that lies inside the per-frame loop",
+                   func=GETR, file=f.module.rel, node=c,
+                   fail="the handler around Response.construct is not inside the per-frame loop: one bad frame aborts the rest")
+            if inside:
+                t = chain[ti][0]
+                in_helper = any(isinstance(x, (ast.FunctionDef, ast.AsyncFunctionDef)) for x, _f in chain[ti:li])
+                for h in t.handlers:
+                    # a `return` in a helper's handler goes back into the caller's loop; in the loop's own function it abandons it
+                    leaves = [x for st in h.body for x in ast.walk(st) if isinstance(x, (ast.Break, ast.Raise)) or (isinstance(x, ast.Return) and not in_helper)]
+                    ctx.ob("C14.b", GETR, not leaves, f"handler `except {norm(h.type) if h.type else ''}` continues with the next frame",
+                           func=GETR, file=f.module.rel, node=h,
+                           fail="the handler leaves the per-frame loop (break / return / raise): later frames of the exchange are lost")
     ctx.require_min("boundaries", 5)
     ctx.require_min("construct_sites", 1)
     ctx.require_min("raiser_sites", 40)
